@@ -5,3 +5,4 @@ import Autog.FactsCheck.Topo
 import Autog.FactsCheck.Totality
 import Autog.FactsCheck.Numbers
 import Autog.FactsCheck.Geom
+import Autog.FactsCheck.Calls
